@@ -165,6 +165,7 @@ fn woff_layout_strategy() -> impl Strategy<Value = WoffLayout> {
         2 => Just(Comp::Stored),
         5 => (0u32..10).prop_map(Comp::Deflate),
         1 => Just(Comp::Deflate(9)),
+        1 => (0u32..10).prop_map(Comp::DeflateAlways),
     ];
     (
         (
@@ -490,7 +491,12 @@ fn check_sfnt(case: &Case, model: &Model, rec: &mut Rec) -> CaseResult {
     let f = &enc.facts;
     // the directory order and the alignment/padding rules are requirements of the format; outside
     // them only "no wrong data" is asserted
-    let strict = f.dir_sorted && f.unaligned_tables == 0 && f.unaligned_dirs == 0 && !f.nonzero_fill;
+    // An unsorted directory breaks a format rule, but allsorts looks tables up by a linear scan and
+    // serves such files today (as FreeType does); losing tables of files that load today is a
+    // regression of exactly what C10 states, so the order of the directory does not relax the oracle.
+    // Unaligned blocks and non-zero filler remain lenient ("no panic, no wrong data").
+    let strict = f.unaligned_tables == 0 && f.unaligned_dirs == 0 && !f.nonzero_fill;
+    rec.class_if(!f.dir_sorted, "strict:unsorted-directory");
     let nm = model.members.len();
 
     let scope = ReadScope::new(bytes);
@@ -643,7 +649,12 @@ fn check_woff(case: &Case, model: &Model, rec: &mut Rec) -> CaseResult {
     let has_gaps = !stored.is_empty() && (0..stored.len()).any(|k| !lay.gaps.is_empty() && lay.gaps[k % lay.gaps.len()] > 0);
     let dir_sorted = enc.entries.windows(2).all(|w| w[0].0 < w[1].0);
     let unaligned = enc.entries.iter().any(|e| e.1 % 4 != 0);
-    let strict = dir_sorted && !unaligned && !has_gaps;
+    // unsorted directory: strict (see check_sfnt); a table kept as a zlib stream longer than
+    // itself (compLength > origLength) makes the file one that encoders should not produce: the
+    // reader may refuse it, but must never hand out anything but the stored table
+    let strict = !unaligned && !has_gaps && enc.oversize == 0;
+    rec.class_if(!dir_sorted, "strict:unsorted-directory");
+    rec.class_if(enc.oversize > 0, "woff:compLength>origLength");
 
     let scope = ReadScope::new(bytes);
     let fd = scope
@@ -782,7 +793,7 @@ impl Property for C10 {
          unaligned data, shared byte ranges and sub-ranges, TTC v1/v2 with offset tables anywhere and tables shared or duplicated between members, WOFF 1.0 with per-table zlib level 0-9 or stored \
          (always stored when deflate is not smaller), metadata and private blocks. For every member and every stored tag table_data/read_table_data must equal the stored bytes, has_table/table_tags/sfnt_version \
          must match, absent tags (tags of other members, one-byte and numeric neighbours, extremes) must report absence, a member index >= collection size must be Err; the lower-level OpenTypeFont/OffsetTable/TableRecord/WoffFont \
-         readers are checked the same way. Layouts that break a format rule a reader may rely on (unsorted directory, unaligned blocks, non-zero filler) are checked leniently: no panic and no wrong data. \
+         readers are checked the same way. An unsorted directory is checked strictly (allsorts serves such files today). Layouts that break a rule a reader may rely on (unaligned blocks, non-zero filler, WOFF gaps, a WOFF table kept as a zlib stream longer than itself) are checked leniently: no panic and never anything but the stored table. \
          Non-trivial = a font with >= 2 tables and (>= 1 deflated table, or a collection of >= 2 members, or an unsorted directory, or a non-canonical data layout: order != directory order, gaps, unaligned, shared range or sub-range); distinct by hash of the file bytes."
             .to_string()
     }
